@@ -99,6 +99,11 @@ def pure_nontrivial(kind):
 
 
 PROPS = {
+    "C20": {"models": [{"name": "integ", "module": "Integ.tla", "cfg": "MC_Integ.cfg", "setup": "setups/empty.json"}],
+            "drivers": [{"name": "integ", "args": {"quick": [20000], "thorough": [2000000]}}],
+            "nontrivial": pure_nontrivial("integ"),
+            "rule": "each operand tuple passed to a real conversion function is one evaluation; all are non-trivial; distinct by (function, operands)",
+            "min_nontrivial": 5000},
     "C18": {"models": [{"name": "curve", "module": "Curve.tla", "cfg": {"quick": "MC_CurveQuick.cfg", "thorough": "MC_CurveThorough.cfg"},
                         "setup": "setups/empty.json", "timeout": {"quick": 900, "thorough": 7200}}],
             "drivers": [{"name": "curve", "args": {"quick": [3000], "thorough": [100000]}}],
